@@ -8,4 +8,10 @@ def stateLocksReleasedByDefer : Bool := true
 def executorRecoverHandlerClean : Bool := true
 /-- the facts of the step model (`ExecFacts` fields: recovers, handlerClean, unlockByDefer) -/
 def execRecovers : Bool := true
+/-- the step loop reports a done context by wrapping (`%w`) `ctx.Err()` of the run's context -/
+def loopReportsCtxErr : Bool := true
+/-- the goroutine of `streamReaderWithConvert.toStream` recovers -/
+def convForwarderRecovers : Bool := true
+/-- the goroutine of `childStreamReader.toStream` recovers -/
+def childForwarderRecovers : Bool := true
 end EinoV.Expected.C13
